@@ -2,7 +2,7 @@
     objects over one element pool.  Global invariant, refinement of the
     reference sequence semantics by every operation, lifting to all
     reachable states. *)
-From Cstl Require Import Prelude DListModel DListProofs DListProofs2 DListProofs3.
+From Cstl Require Import Prelude DListModel DListProofs DListProofs2 DListProofs3 DListProofs4 DListProofs6.
 
 Definition is_elem (a : addr) : Prop := a mod 3 = 2.
 
@@ -86,15 +86,6 @@ Proof.
   intros W E. rewrite <- (wf_len _ _ _ W). apply nth_error_Some. congruence.
 Qed.
 
-Lemma NoDup_app_intro {A} (a b : list A) :
-  NoDup a -> NoDup b -> (forall x, In x a -> In x b -> False) -> NoDup (a ++ b).
-Proof.
-  induction a as [|x a IH]; intros NA NB Dj; simpl; auto.
-  inversion NA; subst. constructor.
-  - rewrite in_app_iff. intros [I|I]; auto. apply (Dj x); auto. left; auto.
-  - apply IH; auto. intros y I1 I2. apply (Dj y); auto. right; auto.
-Qed.
-
 (** two distinct list objects share nothing *)
 Lemma wf_sep h n ls i j li lj :
   wf h n ls -> i <> j -> nth_error ls i = Some li -> nth_error ls j = Some lj ->
@@ -176,7 +167,7 @@ Lemma other_dl h h' n ls i li ex j lj :
   wf h n ls -> nth_error ls i = Some li -> j <> i -> nth_error ls j = Some lj ->
   (forall x, ~ In x (haddr i :: li ++ ex) -> hm h' x = hm h x) ->
   (forall x, In x ex -> is_elem x /\ ~ In x lj) ->
-  (forall x, x <> haddr i -> hs h' x = hs h x) ->
+  hs h' (haddr j) = hs h (haddr j) ->
   dl h' (haddr j) lj.
 Proof.
   intros W Ei Nji Ej Fr Ex Sz.
@@ -189,7 +180,7 @@ Proof.
         apply (wf_disj _ _ _ W i j li lj y); auto.
       * destruct (Ex y I) as (El & Nl). destruct Hy as [<-|I']; auto.
         apply (elem_not_head (haddr j) j); auto.
-  - apply Sz. intros E. apply haddr_inj in E. auto.
+  - exact Sz.
 Qed.
 
 Lemma wf_frame_all h h' n ls :
@@ -231,7 +222,7 @@ Proof.
   apply (wf_upd1 h h' n ls i li li'); auto.
   - intros j lj Nji Ej. apply (other_dl h h' n ls i li ex j lj); auto.
     + intros x I. destruct (Ex x I) as (El & Nl). split; [exact El|]. apply (Nl j lj); auto.
-    + apply (u_hs _ _ _ _ U).
+    + apply (u_hs _ _ _ _ U). intros E. apply haddr_inj in E. auto.
   - intros x I. destruct (Sub x I) as [I'|I']; [left; exact I'|right; apply Ex; exact I'].
   - intros k. rewrite Fr; [apply (wf_tmp _ _ _ W)|].
     intros [E|I]; [exact (head_not_tmp _ _ E)|].
@@ -328,7 +319,7 @@ Section System.
   Variable key : nat -> Z.
   Notation step := (DListModel.step key).
 
-  Definition kle (a b : addr) : Prop := (akey key a <= akey key b)%Z.
+  Notation kle := (DListProofs6.kle (akey key)).
 
   (** number of visits of the scripted visitor, its answer *)
   Definition nvis (stop len : nat) : nat := if Nat.leb 1 stop && Nat.leb stop len then stop else len.
@@ -598,6 +589,7 @@ Section System.
     - intros j lj Nj Ej. apply (other_dl h h' n ls l li [] j lj); auto.
       + rewrite app_nil_r. auto.
       + intros x [].
+      + apply Sz. intros E'. apply haddr_inj in E'. auto.
     - intros x [].
     - apply (tmp_frame h h' n ls _ W Fr). intros x I.
       apply (ring_valid _ _ _ _ (proj1 (wf_dl _ _ _ W l li Ei)) I).
@@ -645,7 +637,7 @@ Section System.
       + intros j lj Nj Ej. apply (other_dl h h' n ls l li [] j lj W Ei Nj Ej).
         * intros x Hx. apply Fr; auto. rewrite app_nil_r in Hx. rewrite Mt. auto.
         * intros x [].
-        * intros x Hx. apply Sz; auto.
+        * apply Sz; auto. unfold hd. intros E'. apply haddr_inj in E'. auto.
       + apply (tmp_frame h h' n ls (hd :: t) W); [intros x Hx; apply Fr; auto|].
         intros x Hx. apply (ddl_valid _ _ _ _ _ DD Hx).
     - (* erase and release *)
@@ -657,7 +649,7 @@ Section System.
       + intros j lj Nj Ej. apply (other_dl h h' n ls l li [] j lj W Ei Nj Ej).
         * intros x Hx. apply Fr; auto. rewrite app_nil_r in Hx. rewrite Mt. auto.
         * intros x [].
-        * intros x Hx. apply Sz; auto.
+        * apply Sz; auto. unfold hd. intros E'. apply haddr_inj in E'. auto.
       + intros x Hx. left. apply dirl_In, In_skipn in Hx. unfold t in Hx. apply dirl_In in Hx. auto.
       + apply (tmp_frame h h' n ls (hd :: t) W); [intros x Hx; apply Fr; auto|].
         intros x Hx. apply (ddl_valid _ _ _ _ _ DD Hx).
@@ -695,14 +687,52 @@ Section System.
           -- apply (ring_valid _ _ _ _ (proj1 Do) Hx).
   Qed.
 
-  Definition plain_op (o : op) : Prop :=
-    match o with Reverse _ | Sort _ => False | _ => True end.
-
-  Theorem step_correct_plain s o :
-    sys_wf s -> plain_op o -> good (abs s) o (step s o).
+  Lemma step_reverse h n ls l :
+    wf h n ls -> good ls (Reverse l) (step (mkS h n) (Reverse l)).
   Proof.
-    destruct s as [h n]. intros W Pl. unfold sys_wf in W. simpl hp in W. simpl nl in W.
-    destruct o; try (exfalso; exact Pl).
+    intros W. unfold DListModel.step. simpl hp. simpl nl.
+    destruct (Nat.ltb_spec l n) as [L|L]; simpl negb; cbv iota; [|exact I].
+    destruct (wf_nth _ _ _ l W L) as (li & Ei).
+    destruct (reverse_dl h _ li (wf_dl _ _ _ W l li Ei)) as (h' & E & D' & U).
+    rewrite E. simpl lifth. eapply done_ok; cycle 1; [econstructor; eauto|].
+    apply (wf_upd1' h h' n ls l li _ _ [] W Ei D' U).
+    - apply incl_cons_app.
+    - intros x [].
+    - intros x I. left. apply in_rev; auto.
+  Qed.
+
+  Lemma step_sort h n ls l :
+    wf h n ls -> good ls (Sort l) (step (mkS h n) (Sort l)).
+  Proof.
+    intros W. unfold DListModel.step. simpl hp. simpl nl.
+    destruct (Nat.ltb_spec l n) as [L|L]; simpl negb; cbv iota; [|exact I].
+    destruct (wf_nth _ _ _ l W L) as (li & Ei).
+    pose proof (wf_dl _ _ _ W l li Ei) as D.
+    destruct (sort_spec (akey key) (N.to_nat (rsz h (haddr l))) 0 h (haddr l) li D)
+      as (h' & l' & E & D' & Pm & So & Fr & Sz).
+    { rewrite (proj2 D). lia. }
+    { intros k _. apply (wf_tmp _ _ _ W). }
+    rewrite E. simpl lifth. eapply done_ok; cycle 1; [eapply SSort; eauto|].
+    apply (wf_upd1 h h' n ls l li l'); auto.
+    - intros j lj Nj Ej. apply (other_dl h h' n ls l li [] j lj W Ei Nj Ej).
+      + intros x Hx. apply Fr. rewrite app_nil_r in Hx. exact Hx.
+      + intros x [].
+      + apply Sz.
+        * intros E'. apply haddr_inj in E'. auto.
+        * intros k _. apply head_not_tmp.
+    - intros x I. left. eapply Permutation_in; [symmetry; exact Pm|exact I].
+    - intros k. rewrite Fr; [apply (wf_tmp _ _ _ W)|]. intros [E'|I].
+      + exact (head_not_tmp _ _ E').
+      + apply (elem_not_tmp (taddr k) k); auto. apply (wf_elem _ _ _ W l li); auto.
+  Qed.
+
+  (** Every operation inside the domain, from a well-formed state: no fault,
+      well-formedness re-established, visible effect = reference semantics *)
+  Theorem step_correct s o :
+    sys_wf s -> good (abs s) o (step s o).
+  Proof.
+    destruct s as [h n]. intros W. unfold sys_wf in W. simpl hp in W. simpl nl in W.
+    destruct o.
     - apply step_push_front; auto.
     - apply step_push_back; auto.
     - apply step_pop_front; auto.
@@ -716,6 +746,8 @@ Section System.
     - apply step_find; auto.
     - apply step_swap; auto.
     - apply step_clear; auto.
+    - apply step_reverse; auto.
+    - apply step_sort; auto.
     - apply step_concat; auto.
   Qed.
 End System.
@@ -742,3 +774,44 @@ Proof.
   unfold sys_wf. pose proof (wf_init n) as W. change (sys_init n) with (mkS (hp (sys_init n)) n).
   rewrite (wf_abs _ _ _ W). exact W.
 Qed.
+
+(** * All reachable states *)
+
+Section Reach.
+  Variable key : nat -> Z.
+  Notation step := (DListModel.step key).
+
+  Theorem reach_wf n s : reach step (sys_init n) s -> sys_wf s.
+  Proof.
+    apply (reach_ind_inv step (fun s => sys_wf s)).
+    - apply sys_wf_init.
+    - intros s0 o s' out W E. pose proof (step_correct key s0 o W) as G. rewrite E in G. apply G.
+  Qed.
+
+  Theorem run_safe n ops :
+    match fst (run step (sys_init n) ops) with
+    | Done s _ => sys_wf s
+    | Precond => True
+    | _ => False
+    end.
+  Proof.
+    generalize (sys_wf_init n). generalize (sys_init n).
+    induction ops as [|o ops IH]; intros s W; simpl; auto.
+    pose proof (step_correct key s o W) as H.
+    destruct (step s o) as [s' out| | |]; simpl in H; try tauto.
+    destruct H as (W' & _). specialize (IH s' W').
+    destruct (run step s' ops); simpl in *; auto.
+  Qed.
+
+  (** in every reachable state every list object is a well-formed ring whose
+      forward walk is its sequence and whose backward walk is the mirror image *)
+  Theorem reach_rings n s i l :
+    reach step (sys_init n) s -> nth_error (abs s) i = Some l ->
+    ring (hp s) (haddr i) l /\ rsz (hp s) (haddr i) = N.of_nat (length l) /\
+    forall fuel, length l <= fuel ->
+      traverse Fwd (hp s) (haddr i) fuel = l /\ traverse Rev (hp s) (haddr i) fuel = rev l.
+  Proof.
+    intros R E. pose proof (reach_wf n s R) as W. destruct (wf_dl _ _ _ W i l E) as (Rg & Z).
+    split; auto. split; auto. intros fuel Hf. split; [apply traverse_fwd|apply traverse_rev]; auto.
+  Qed.
+End Reach.
